@@ -4,7 +4,7 @@ from kv import Case, xn, xb, xl, xlist, xopt, xbool
 
 ID = "C07"
 MODULE = "C07"
-IMPORTS = "Bytes RustInt Http1Read Http1ReadOld Http1ReadProofs Http1ReadParseProofs Http1ReadLocalProofs Http1ReadLfProofs Http1ReadBodyProofs"
+IMPORTS = "Bytes RustInt Http1Read Http1ReadOld Http1ReadProofs Http1ReadParseProofs Http1ReadLocalProofs Http1ReadLfProofs Http1ReadBodyProofs Http1ReadTermProofs"
 PROFILES = ("dev", "nochk")
 KERNEL_SAMPLE = 30
 THEOREMS = []   # filled in below (kept at the end of the file for readability)
@@ -484,6 +484,42 @@ def generate(rng, tier):
     for n in (0, 1, 5, 17, len(s) - 1) if quick else range(0, len(s), 3):
         cases.append(mkreq(s[:n], [max(1, n)], "stalled", mode=1, dh=b"d"))
 
+    # ---- 0-byte reads in the middle of the stream (the reader takes the first one for the end: head => error, body => what
+    # arrived; nothing may spin on them).  The model reads the same schedule; the specification components take schedules of
+    # non-empty bursts only, so these cases are judged by the model (theorems head_read_ends / body_read_ends / body_calls_end
+    # hold for every schedule) and by the rule that a hang is never acceptable.
+    g = (b"POST", b"/z", True, [hline(b"Host", 1, b"a"), hline(b"Content-Length", 1, b"8")])
+    s = print_head(*g) + b"01234567" + NEXT
+    for k in (0, 1, 5, len(print_head(*g)) - 1, len(print_head(*g)), len(print_head(*g)) + 3, len(print_head(*g)) + 8):
+        for zeros in (1, 3):
+            for mode in (0, 1, 2):
+                sc = ([k] if k else []) + [0] * zeros + [len(s)]
+                cases.append(mkreq(s, sc, "zero-read", mode=mode))
+    for _ in range(40 if quick else 2000):
+        m = rng.choice(BODY_METHODS)
+        cl = rng.choice([0, 1, 31, 100])
+        gg = (m, rng.choice(TARGETS[:12]), True, rand_headers(rng, cl=cl))
+        ss = print_head(*gg) + body_bytes(cl, rng.randrange(50)) + (NEXT if rng.random() < 0.5 else b"")
+        sc = rand_sched(rng, len(ss))
+        for _ in range(rng.choice([1, 1, 2, 1200])):
+            sc.insert(rng.randrange(len(sc) + 1), 0)
+        cases.append(mkreq(ss, sc, "zero-read", mode=rng.choice([0, 1, 2]), limit=rng.choice([BIG_LIMIT, 20]), profile=rng.choice(PROFILES)))
+    for _ in range(40 if quick else 2000):
+        cl = rng.choice([1, 5, 32, 100, 5000])
+        el = rng.randrange(0, cl)
+        total = body_bytes(cl + 40, rng.randrange(90))
+        rest = total[el:]
+        sc = rand_sched(rng, len(rest), 5)
+        for _ in range(rng.choice([1, 1, 2, 1200])):
+            sc.insert(rng.randrange(len(sc) + 1), 0)
+        c = mkbody(total[:el], cl, rng.choice([BIG_LIMIT, 33]), rest, sc, "zero-read", mode=rng.choice([0, 1, 2]), profile=rng.choice(PROFILES))
+        c.spec = None
+        cases.append(c)
+        ops = [rng.choice([1, 7, 100, 8192, ("rtb", BIG_LIMIT), "drain"]) for _ in range(rng.randrange(1, 6))]
+        c = mkpoll(total[:el], cl, rest, sc, ops, "zero-read", mode=rng.choice([0, 1, 2]), profile=rng.choice(PROFILES))
+        c.spec = None
+        cases.append(c)
+
     # ---- malformed streams -------------------------------------------------------------------------------------------------
     bad = [
         b"", b"\r\n\r\n", b"\n\n", b" / HTTP/1.1\r\n\r\n", b"GET\r\n\r\n", b"GET /\r\n\r\n", b"GET / \r\n\r\n", b"GET  / HTTP/1.1\r\n\r\n",
@@ -571,6 +607,13 @@ def generate(rng, tier):
     return cases
 
 
+def _is_hang(t):
+    """(L (N 3) (N why)): the harness gave the case up as a hang (scripted components): why = 1 the code kept reading after
+    1000 consecutive 0-byte reads (spins at end of file), 2 a call did not return within 10 s (twice), 3 the case did not come
+    back from its worker thread within 45 s (twice).  The model has no such outcome; the specification never allows it."""
+    return t.startswith("(L (N 3)")
+
+
 def _is_err(t):
     """(L (N 1) ..): an error outcome, whatever its class"""
     return t.startswith("(L (N 1)")
@@ -598,6 +641,8 @@ def compare(c, i, m):
     position of the early bytes in the stream and the bytes taken from the connection are judged by the specification."""
     if i == "(L (N 2))" or m == "(L (N 2))":
         return i == m
+    if _is_hang(i):
+        return False
     if c.comp in ("h1.accept", "h1.echo"):
         xi, xm = kv.xparse(i), kv.xparse(m)
         if xi[0] != "L" or len(xi[1]) != 2:
@@ -637,6 +682,8 @@ def compare(c, i, m):
 def spec_ok(c, i, s):
     if i == "(L (N 2))":
         return False            # a panic is never acceptable (C02)
+    if _is_hang(i):
+        return False            # 'ends in an error rather than a hang': no stream, schedule or end mode allows a hang
     if c.comp == "h1.poll":
         # the declared body as far as it is delivered, and how much of it is on the connection: everything handed out,
         # in whatever pieces, is a prefix of the first; never more than the second is taken; a read with a non-empty window
@@ -779,26 +826,37 @@ RULE = ("scripted AsyncRead (delivers the stream in the burst sizes of a schedul
         "min(16 KiB, delivered bytes) => error; over loopback: an error or the request within 20 s, never a hang; Http1Body as AsyncRead: "
         "whatever the calls hand out is a prefix of the declared body, pieces no longer than their windows, end of file only at the end "
         "of the body, never more than content-length - early bytes taken, a successful drain leaves the connection right behind the body "
-        "and the body unreadable; never a panic). Generators: short messages x every cut position (2 and 3 pieces, byte-by-byte), also "
+        "and the body unreadable; never a panic; never a hang: the scripted reader answers at most 1000 consecutive reads with 0 bytes "
+        "-- code that reads again spins at end of file --, every call into kvarn has 10 s (the case is run a second time before that "
+        "is said), every case runs on a worker thread that is given up after 45 s / 120 s (loopback), and the outcome (L (N 3) (N why)) "
+        "is rejected by the oracle for every input). Generators: short messages x every cut position (2 and 3 pieces, byte-by-byte), also "
         "with bare-LF line ends and with tabs/spaces around the values; grammar requests with random whitespace decorations and random "
         "multi-cut schedules, heads of size 511..16385 with bursts that land the buffer on the capacity thresholds, other head limits, "
         "content-length {0,1,31,32,33,100,5000} x trailing pipelined request x caller limits x early/late splits, truncated heads and "
         "bodies (EOF / error / stall), 100 hand-written malformed heads, random mutations, Host values and targets the http crate refuses, "
         "bounded-exhaustive header blocks over {a : SP CR LF}, random sequences of read windows / read_to_bytes / drain over random "
         "early/late splits, loopback: heads of 16383/16384/16385 bytes and an unterminated 40 KB head through the real accept, a client that "
-        "stops in the middle of the head (the real 5 s), one that pauses 1.2 s, grammar requests with bodies and pipelined successors. "
+        "stops in the middle of the head (the real 5 s), one that pauses 1.2 s, grammar requests with bodies and pipelined successors; "
+        "schedules with 0-byte reads (1, 3, 1200 in a row) before, inside and behind the head and the body, for the three end modes. "
         "distinct_nontrivial counts distinct (component, input, model outcome prefix) triples")
 ASSUMPTIONS = [
     "read schedule = list of burst sizes; each read returns min(burst, window, bytes left) bytes; the exact theorems (parse_print*, "
     "schedule_independent*, ows_independent, segmentation_blind, body_exact, body_any_schedule, body_read_complete, body_drain_aligns) take "
-    "schedules of non-empty bursts (sched_pos: a 0-byte read is how a peer says EOF, modelled by the end mode); head_limit, stalled_head and "
-    "body_read_capped hold for every schedule",
+    "schedules of non-empty bursts (sched_pos: a 0-byte read is how a peer says EOF, modelled by the end mode); head_limit, stalled_head, "
+    "body_read_capped, head_read_ends, body_read_ends, body_calls_end and served_body_ends hold for every schedule",
+    "a hang of the model is a loop that uses up its fuel (Err E_FUEL); the fuel of each loop is the number of bytes it can still get plus "
+    "one (head: length of the stream + 1, read_to_bytes: bytes still wanted + 1, drain: unread + 1) and one round of a model loop is one "
+    "read of the code, so the termination theorems say that every round gets at least one byte or is the last one. On the implementation "
+    "side a hang is what the harness can see of one: 1000 consecutive 0-byte answers of the scripted reader followed by another read, a "
+    "call that does not return within 10 s (the case is repeated once), a case whose worker thread does not come back within 45 s "
+    "(repeated once; after two such threads the rest of that harness process is reported as not executed and run again by the driver). "
+    "None of the modelled readers reads again after a 0-byte answer, so the budget of 1000 is not a bound the code comes near",
     "BytesMut::reserve, when it reallocates, yields a capacity >= len + additional (theorems hold for every such growth function; the "
     "model run instantiates it with Vec's amortised doubling max(2*cap, len+additional, 8); the comparison with the code does not depend on "
     "it: how many body bytes arrive with the head is compared only where both sides have them)",
     "http 1.5.0: Method::from_bytes, HeaderName::from_bytes, HeaderValue::from_maybe_shared/to_str, Uri::from_maybe_shared (scheme http/https, "
     "authority scan, path/query classes, UTF-8 check) are transcribed into the model and validated by the differential run, not proved against "
-    "the crate; parse_print* take the crate's verdict on the target as the hypothesis parse_uri .. = Some ..",
+    "the crate; parse_print* take the crate's verdict on the URI (scheme://host target when the Host value is an authority, the origin-form target alone otherwise) as the hypothesis request_uri .. = Some ..",
     "HeaderMap::insert's MAX_SIZE (32768 entries) panic is not modelled: unreachable below 96 KiB of head",
     "read_to_bytes' inner reads (through tokio's Take into Http1Body::poll_read) are modelled as reads of the connection itself: there "
     "poll_read's own cap content_length - offset is never below Take's limit; the differential run covers the combination",
@@ -814,8 +872,16 @@ TRUSTED = ["modelled: async/src/lib.rs read_more/read_headers/contains_two_newli
            "utils/src/lib.rs valid_method/valid_version/get_body_length_request, src/application.rs Http1Body::{new, poll_read, "
            "read_to_bytes, drain} over async/src/lib.rs read_to_end_or_max and tokio's Take; exercised unmodelled (loopback runs, result "
            "predicted by the model of read::request + Http1Body with max_len = 16384, scheme http): src/application.rs "
-           "HttpConnection::accept / request::parse_http_1, src/lib.rs handle_connection up to the Prepare extension"]
-LEVEL_TEXT = ("Machine-checked Coq theorems (23, no axioms) over a byte-level executable model of the HTTP/1 request reader (read loop with "
+           "HttpConnection::accept / request::parse_http_1, src/lib.rs handle_connection up to the Prepare extension. The constants of "
+           "accept / parse_http_1 and where they are in the model: `16 * 1024` (application.rs, HttpConnection::accept, the max_len handed to "
+           "parse_http_1) = Model accept_max_len = 16384, the max_len of serve in run_accept / run_echo (theorem head_limit with max_len = "
+           "16384; tied by the loopback heads of 16383 / 16384 / 16385 bytes: served, served, error); `Duration::from_secs(5)` "
+           "(application.rs, parse_http_1, the per-read time-out handed to read::request) = end mode 1 of the model reader (a read that "
+           "pends until the time-out: RdStall => Err E_UNEXPECTED_END in read_headers; theorem stalled_head; tied by the loopback cases "
+           "accept-stall: an error after the code's own 5 s and within 20 s, and accept-slow / echo-slow: a pause of 1.2 s is served); the "
+           "scheme `http` for an unencrypted connection = https := false in accept_input; Http1Body::new(stream, early bytes, "
+           "get_body_length_request(&head)) = the second half of serve"]
+LEVEL_TEXT = ("Machine-checked Coq theorems (27, no axioms) over a byte-level executable model of the HTTP/1 request reader (read loop with "
               "buffer growth through an arbitrary growth function, early method check, request-line state machine, header parser with its "
               "absolute indices and whitespace trimming, URI assembly, body length, body reader, Http1Body as a state machine with poll_read / "
               "read_to_bytes / drain) driven by an arbitrary read schedule (list of burst sizes). parse_print_ows: for every request of the "
@@ -830,7 +896,11 @@ LEVEL_TEXT = ("Machine-checked Coq theorems (23, no axioms) over a byte-level ex
               "segmentation_blind: for EVERY byte stream the observable result (fields + body outcome, or the error class) equals serve_spec "
               "of the delivered bytes, a function without schedule or capacities (schedule_independent_any_stream). head_limit / "
               "stalled_head: no blank line within max_len (16384) bytes resp. within the delivered bytes => an error, for every schedule "
-              "incl. 0-byte reads and every growth function whatsoever. body_exact / body_any_schedule: read_to_bytes returns exactly "
+              "incl. 0-byte reads and every growth function whatsoever. head_read_ends / body_read_ends / body_calls_end / "
+              "served_body_ends ('rather than a hang'): for EVERY schedule -- any number of 0-byte reads anywhere --, end mode and growth "
+              "function the head loop, read_to_bytes, and every call of every sequence of read / read_to_bytes / drain on a Http1Body end "
+              "within their fuel (= bytes still obtainable + 1 reads) with a value or one of their errors, never 'out of fuel', never a "
+              "panic. body_exact / body_any_schedule: read_to_bytes returns exactly "
               "min(content-length, limit) bytes and leaves the rest of the stream (the next request) on the connection; short bodies end as "
               "EOF-prefix / TimedOut / I/O error. body_read_capped: Http1Body as AsyncRead, for EVERY sequence of read windows, every stream, "
               "schedule and end mode, hands out a prefix of the declared body, takes from the connection exactly the part of it that did not "
@@ -846,7 +916,10 @@ LEVEL_NOTE = ("Trusted: Coq kernel, extraction (reduced by the in-kernel recheck
               "early/late are not compared exactly, the oracle bounds them), the http/bytes/tokio crates below the modelled functions (http's "
               "Uri/HeaderName/HeaderValue/Method checks are transcribed, parse_print* take the Uri verdict as the hypothesis expect .. = Some ..). "
               "The constants 16 KiB and 5 s and the glue of parse_http_1 are tied by loopback runs through the real accept, not modelled as "
-              "code. Not covered: requests whose header names repeat (judged by segmentation_blind only); methods of 8 bytes and more "
+              "code (TRUSTED says which model parameter each of them is). 'Rather than a hang' is proved of the model as termination of "
+              "every reading loop within its fuel for every schedule, and observed on the code by watchdogs whose verdicts are outcomes of "
+              "the case (spin on 0-byte reads / no return within 10 s / worker thread lost), so a reader that hangs yields a VIOLATION with "
+              "the stream and the schedule as replay instead of a check that does not return. Not covered: requests whose header names repeat (judged by segmentation_blind only); methods of 8 bytes and more "
               "(PROPFIND and PROPPATCH are in utils::valid_method but longer than the parser's 7-byte method buffer: refused with "
               "InvalidVersion, outside the property's 'method up to 7 letters'); obs-fold (a continuation line is an error: RFC 9112 allows "
               "that); the body time-out of 30 s (not a clause); the cfg(not(async-networking)) duplicate of the reader. Twelve defects were "
@@ -863,11 +936,11 @@ THEOREMS = [
     ("parse_print",
      r"forall grow mode https dh (max_len : nat) limit (g : greq) rest (sched : list nat) e, grow_ok grow -> sched_pos sched -> greq_ok g = true -> (length (print_head g) <= max_len)%nat -> expect https dh limit g rest = Some e -> (NEED <= length rest)%nat -> (length (print_head g) + NEED <= sum_sched sched)%nat -> exists sv, serve grow mode https dh max_len limit (print_head g ++ rest) sched = Ok sv /\ observed sv = Some e".replace("NEED", NEED)),
     ("parse_print_head",
-     r"forall https dh (g : greq) extra host auth path query, greq_ok g = true -> g_host dh g = Some host -> parse_uri https host (g_target g) = Some (auth, path, query) -> parse_request https dh (print_head g ++ extra) = Ok (mk_request (g_method g) path query (if g_v11 g then 11 else 10) (g_hmap g) auth extra)"),
+     r"forall https dh (g : greq) extra auth path query, greq_ok g = true -> request_uri https (g_host dh g) (g_target g) = Some (auth, path, query) -> parse_request https dh (print_head g ++ extra) = Ok (mk_request (g_method g) path query (if g_v11 g then 11 else 10) (g_hmap g) auth extra)"),
     ("parse_print_lf",
      r"forall grow mode https dh (max_len : nat) limit (l0 : bool) (fl : list bool) (lb : bool) (g : greq) rest (sched : list nat) e, grow_ok grow -> sched_pos sched -> greq_ok g = true -> (length (print_head_e l0 fl lb g) <= max_len)%nat -> expect https dh limit g rest = Some e -> (NEED <= length rest)%nat -> (length (print_head_e l0 fl lb g) + NEED <= sum_sched sched)%nat -> exists sv, serve grow mode https dh max_len limit (print_head_e l0 fl lb g ++ rest) sched = Ok sv /\ observed sv = Some e".replace("NEED", NEED)),
     ("parse_print_head_lf",
-     r"forall https dh (l0 : bool) (fl : list bool) (lb : bool) (g : greq) extra host auth path query, greq_ok g = true -> g_host dh g = Some host -> parse_uri https host (g_target g) = Some (auth, path, query) -> parse_request https dh (print_head_e l0 fl lb g ++ extra) = Ok (mk_request (g_method g) path query (if g_v11 g then 11 else 10) (g_hmap g) auth extra)"),
+     r"forall https dh (l0 : bool) (fl : list bool) (lb : bool) (g : greq) extra auth path query, greq_ok g = true -> request_uri https (g_host dh g) (g_target g) = Some (auth, path, query) -> parse_request https dh (print_head_e l0 fl lb g ++ extra) = Ok (mk_request (g_method g) path query (if g_v11 g then 11 else 10) (g_hmap g) auth extra)"),
     ("schedule_independent",
      r"forall grow1 grow2 mode1 mode2 https dh (max_len : nat) limit (g : greq) rest (sched1 sched2 : list nat), grow_ok grow1 -> grow_ok grow2 -> sched_pos sched1 -> sched_pos sched2 -> greq_ok g = true -> (length (print_head g) <= max_len)%nat -> expect https dh limit g rest <> None -> (NEED <= length rest)%nat -> (length (print_head g) + NEED <= sum_sched sched1)%nat -> (length (print_head g) + NEED <= sum_sched sched2)%nat -> exists sv1 sv2, serve grow1 mode1 https dh max_len limit (print_head g ++ rest) sched1 = Ok sv1 /\ serve grow2 mode2 https dh max_len limit (print_head g ++ rest) sched2 = Ok sv2 /\ observed sv1 = observed sv2 /\ observed sv1 <> None".replace("NEED", NEED)),
     ("segmentation_blind",
@@ -878,6 +951,14 @@ THEOREMS = [
      r"forall grow mode https dh (max_len : nat) limit stream (sched : list nat), contains_two_newlines (firstn max_len stream) = false -> exists e, serve grow mode https dh max_len limit stream sched = Err e /\ " + ERRS),
     ("stalled_head",
      r"forall grow mode https dh (max_len : nat) limit stream (sched : list nat), contains_two_newlines (firstn (sum_sched sched) stream) = false -> exists e, serve grow mode https dh max_len limit stream sched = Err e /\ " + ERRS),
+    ("head_read_ends",
+     r"forall grow mode (max_len : nat) stream (sched : list nat), match read_headers grow (S (length stream)) mode max_len [] 512 (mk_reader stream sched) with | Ok _ => True | Err e => " + ERRS[1:-1] + r" | Panic => False end"),
+    ("body_read_ends",
+     r"forall grow mode early (cl limit : N) stream (sched : list nat), match read_to_bytes grow mode early cl limit (mk_reader stream sched) with | Ok _ => True | Err e => e = E_TIMEDOUT \/ e = E_IO | Panic => False end"),
+    ("body_calls_end",
+     r"forall grow mode early (cl : nat) stream (sched : list nat) (ops : list hop), Forall (fun o : outcome bytes => match o with | Ok _ => True | Err e => e = E_TIMEDOUT \/ e = E_IO | Panic => False end) (fst (hb_run grow mode (hb_new early cl) (mk_reader stream sched) ops))"),
+    ("served_body_ends",
+     r"forall grow mode https dh (max_len : nat) limit stream (sched : list nat) sv, serve grow mode https dh max_len limit stream sched = Ok sv -> match sv_body sv with | Ok _ => True | Err e => e = E_TIMEDOUT \/ e = E_IO | Panic => False end"),
     ("body_exact",
      r"forall grow mode early (cl limit : N) stream (sched : list nat), grow_ok grow -> sched_pos sched -> (N.to_nat (N.min cl limit) <= length early + Nat.min (sum_sched sched) (length stream))%nat -> exists r', read_to_bytes grow mode early cl limit (mk_reader stream sched) = Ok (firstn (N.to_nat (N.min cl limit)) (early ++ stream), r') /\ rd_data r' = skipn (N.to_nat (N.min cl limit) - length early) stream"),
     ("body_any_schedule",
@@ -885,7 +966,7 @@ THEOREMS = [
     ("parse_print_ows",
      r"forall grow mode https dh (max_len : nat) limit (l0 : bool) (ds : list deco) (lb : bool) (g : greq) rest (sched : list nat) e, grow_ok grow -> sched_pos sched -> greq_ok g = true -> decos_ok ds (g_headers g) = true -> (length (print_head_d l0 ds lb g) <= max_len)%nat -> expect https dh limit g rest = Some e -> (NEED <= length rest)%nat -> (length (print_head_d l0 ds lb g) + NEED <= sum_sched sched)%nat -> exists sv, serve grow mode https dh max_len limit (print_head_d l0 ds lb g ++ rest) sched = Ok sv /\ observed sv = Some e".replace("NEED", NEED)),
     ("parse_print_head_ows",
-     r"forall https dh (l0 : bool) (ds : list deco) (lb : bool) (g : greq) extra host auth path query, greq_ok g = true -> decos_ok ds (g_headers g) = true -> g_host dh g = Some host -> parse_uri https host (g_target g) = Some (auth, path, query) -> parse_request https dh (print_head_d l0 ds lb g ++ extra) = Ok (mk_request (g_method g) path query (if g_v11 g then 11 else 10) (g_hmap g) auth extra)"),
+     r"forall https dh (l0 : bool) (ds : list deco) (lb : bool) (g : greq) extra auth path query, greq_ok g = true -> decos_ok ds (g_headers g) = true -> request_uri https (g_host dh g) (g_target g) = Some (auth, path, query) -> parse_request https dh (print_head_d l0 ds lb g ++ extra) = Ok (mk_request (g_method g) path query (if g_v11 g then 11 else 10) (g_hmap g) auth extra)"),
     ("ows_independent",
      r"forall grow1 grow2 mode1 mode2 https dh (max_len : nat) limit (l0 l0' : bool) (ds ds' : list deco) (lb lb' : bool) (g : greq) rest (sched1 sched2 : list nat), grow_ok grow1 -> grow_ok grow2 -> sched_pos sched1 -> sched_pos sched2 -> greq_ok g = true -> decos_ok ds (g_headers g) = true -> decos_ok ds' (g_headers g) = true -> (length (print_head_d l0 ds lb g) <= max_len)%nat -> (length (print_head_d l0' ds' lb' g) <= max_len)%nat -> expect https dh limit g rest <> None -> (NEED <= length rest)%nat -> (length (print_head_d l0 ds lb g) + NEED <= sum_sched sched1)%nat -> (length (print_head_d l0' ds' lb' g) + NEED <= sum_sched sched2)%nat -> exists sv1 sv2, serve grow1 mode1 https dh max_len limit (print_head_d l0 ds lb g ++ rest) sched1 = Ok sv1 /\ serve grow2 mode2 https dh max_len limit (print_head_d l0' ds' lb' g ++ rest) sched2 = Ok sv2 /\ observed sv1 = observed sv2 /\ observed sv1 <> None".replace("NEED", NEED)),
     ("method_token_starts",
